@@ -200,6 +200,21 @@ func CheckC13(e *Env) (int, error) {
 			}
 		}
 	}
+	// (1b) the same phrase asked under two Language values: before, and right after, it was accepted under its own
+	for _, a := range AllLangs {
+		va := probes[a][0]
+		for _, b := range pairLangs {
+			if b == a {
+				continue
+			}
+			vb := va
+			vb.Lang = b
+			vv := vb
+			vv.K = "valid"
+			kindOf[len(plans)] = "cross"
+			plans = append(plans, &histPlan{Source: "hook", Hold: true, Ops: []plan.Op{vb, va, vb, vv}})
+		}
+	}
 	pairs := len(plans)
 	if err := solo.All(pool); err != nil {
 		return 2, err
@@ -245,6 +260,27 @@ func CheckC13(e *Env) (int, error) {
 		}
 		for len(ops) < n {
 			ops = append(ops, pick())
+		}
+		if r.Intn(4) == 0 { // a call and its one-argument variation, alternating (memoisation keyed by part of the arguments)
+			kind = "variation"
+			op := pick()
+			v := op
+			switch {
+			case op.K == "seed" && r.Bool():
+				setP(&v, op.Passphrase()+"x")
+			case op.K == "seed":
+				setM(&v, op.Mnemonic()+" x")
+			default:
+				for v.Lang == op.Lang {
+					v.Lang = append(append([]int{}, AllLangs...), UnsupportedLangs...)[r.Intn(14)]
+				}
+			}
+			at := r.Intn(len(ops) + 1)
+			seq := []plan.Op{v, op, v, op}
+			if r.Bool() {
+				seq = []plan.Op{op, v, op}
+			}
+			ops = append(ops[:at], append(seq, ops[at:]...)...)
 		}
 		if r.Intn(3) == 0 && len(ops) >= 2 { // the same call at the first and at a later position
 			kind = "repeat"
@@ -375,7 +411,7 @@ func CheckC13(e *Env) (int, error) {
 	cov := map[string]interface{}{
 		"evaluations":         len(plans),
 		"distinct_nontrivial": len(distinct),
-		"rule":                "a case = one history (1-40 exported calls) executed by a single goroutine in a fresh process, every outcome compared with the outcome of the same call alone in a fresh process of the same build; caller-owned buffers (entropy incl. spare capacity) and returned seeds/strings re-inspected after every later call. Enumerated: all 12x12 ordered pairs of first-used Language values x 3 first-op kinds x 3 second-op kinds. Non-trivial: >= 2 calls on a common Language value; distinct by digest of the call sequence.",
+		"rule":                "a case = one history (1-40 exported calls) executed by a single goroutine in a fresh process, every outcome compared with the outcome of the same call alone in a fresh process of the same build; caller-owned buffers (entropy incl. spare capacity) and returned seeds/strings re-inspected after every later call. Enumerated: all 12x12 ordered pairs of first-used Language values x 3 first-op kinds x 3 second-op kinds; every supported language's valid phrase asked under each of the 11 other Language values before and after its acceptance. Non-trivial: >= 2 calls on a common Language value; distinct by digest of the call sequence.",
 		"exhaustive":          false,
 		"exhaustive_parts":    "ordered pairs of first-used languages (10 supported + 2 unsupported) x {validate valid, validate invalid, generate}^2",
 		"samples":             samples,
